@@ -1,6 +1,17 @@
 """C18 check configuration (data only)."""
 from propbase import KERNEL, HARNESS
 
+
+def lowerspec(ctx):
+    """the two facts assumed about str::to_lowercase (lower_spec), swept over every Unicode scalar value"""
+    rc, out = ctx["sh"]([ctx["exe"], "tool", "lowerspec"], cwd=ctx["root"], timeout=600)
+    if rc == 0 and "lowerspec ok" in out:
+        return {"coverage": {"lower_spec_scalars_checked": int(out.split()[-1])}, "notes": [out.strip()]}
+    return {"violations": [{"kind": "broken-correspondence",
+                            "what": "str::to_lowercase no longer satisfies lower_spec (assumption of the parser theorems): " + out.strip()[-200:],
+                            "case": {"tool": "lowerspec", "output": out.strip()[-200:]}}]}
+
+
 PROP = {'gen': [],
  'coq_props': ['theories/Props/C18.vo'],
  'coq_corr': ['theories/Corr/C18Corr.vo'],
@@ -29,6 +40,7 @@ PROP = {'gen': [],
  'n_thorough': 30000,
  'shard': 125,
  'level': 'proof',
+ 'extra': [lowerspec],
  'trusted_base': [KERNEL,
                   'hand-written model Keys/KeyMap.v of KeyMap::{register,lookup,for_each,register_override,lookup_state} and '
                   'KeyMapHandler::handle (BTreeMap as key-ordered association list), tied to the code by the correspondence run',
